@@ -88,12 +88,15 @@ PROPS = {
                             "S6 dataclass equality"],
     ),
     "C15": dict(
-        functions=[SP + "StatisticalContinuumSampler.sample_from_continuum", SP + "AbstractContinuumSampler._has_been_init"]
+        functions=[SP + "StatisticalContinuumSampler.sample_from_continuum", SP + "AbstractContinuumSampler._has_been_init",
+                   SP + "StatisticalContinuumSampler._set_nb_units_information", SP + "StatisticalContinuumSampler._set_duration_information"]
                   + [CT + "Continuum." + m for m in ("copy_flush", "add", "add_annotator", "__bool__")] + [CT + "Unit.__lt__"],
         lawtags=True,
         oracles=[SP + "StatisticalContinuumSampler.sample_from_continuum"],
         bounded=[dict(oracle=SP + "StatisticalContinuumSampler.sample_from_continuum",
-                      what="init_sampling / init_sampling_custom / _set_* are not under a deductive contract (law tags only): measured parameters "
+                      what="_set_nb_units_information and _set_duration_information are proved (mean / np.std of exactly the reference's per-annotator "
+                           "counts / unit durations); init_sampling, init_sampling_custom, _set_gap_information and "
+                           "_set_categories_information are not under a deductive contract (law tags only): measured parameters "
                            "against numpy on random references, 40 seeded draws per case: validity clauses again, plus a loose 6-standard-error "
                            "check of the mean duration")],
         design_ref="DESIGN.md section 4 C15",
